@@ -41,6 +41,9 @@
 // runtime around the table (endSymbol, tokens32.Add/Trim, Parse, Reset, and everything in Init except
 // the table: reset, parse, add, memoize, memoizedResult, matchDot) is compared with the text the Lean
 // side was written against; a difference is refused as well.
+// (The bodies of tokens32.Add/Trim/Tokens, reset, add, memoize, memoizedResult, matchDot are in addition TRANSLATED
+// by pegruntime.go and proved in Props/PegRuntimeGen.lean; the pin stays for parse/Parse/Reset/Init and as a
+// second, independent guard.)
 package main
 
 import (
@@ -1024,14 +1027,19 @@ func genPegRules(repo, out string) (err error) {
 	b.WriteString("`memoize(…, true)`; the constants `rule<Name>`, the table `rul3s` and the function order agree; the\n")
 	b.WriteString("`/* N name <- */` comments agree with that; the runtime around the table (endSymbol, tokens32.Add/Trim/Tokens,\n")
 	b.WriteString("Parse, Reset, and in Init: reset, parse, add, memoize, memoizedResult, matchDot) has the pinned text.\n\n")
-	b.WriteString("What the pinned runtime means for `Peg.run` (stated, not proved — the trusted reading of ~60 lines of Go):\n")
+	b.WriteString("What the runtime means for `Peg.run`. The LOCAL claims below about tokens32.Add/Trim/Tokens, reset, add, memoize,\n")
+	b.WriteString("memoizedResult and matchDot are no longer only read: generator `pegruntime` translates those bodies statement by\n")
+	b.WriteString("statement (Gen/PegRuntimeGo.lean) and Props/PegRuntimeGen.lean proves them (named in brackets). What remains the\n")
+	b.WriteString("trusted reading (stated, not proved; text pinned here): `parse`/`Parse`/`Reset`/the option loop of Init, and the\n")
+	b.WriteString("COMPOSITION — that the rule functions running on this runtime compute `Peg.run` (determinism of a rule function\n")
+	b.WriteString("in (buffer, position), hence transparency of the cache) — validated three-way per string by C17.\n")
 	b.WriteString("  * reset: buffer = []rune(Buffer) ++ [endSymbol] (a string never decodes to 1114112, so the end symbol\n")
 	b.WriteString("    occurs exactly at index len); position, tokenIndex = 0, 0; the memo table is emptied. `input[pos]? = none`\n")
 	b.WriteString("    of the Lean model is `buffer[position] == endSymbol`; no test reads past it because every test that\n")
-	b.WriteString("    advances `position` first compares `buffer[position]` with something that is not the end symbol.\n")
-	b.WriteString("  * matchDot = `.`; a bare `position++` occurs only under a case label (a real character).\n")
+	b.WriteString("    advances `position` first compares `buffer[position]` with something that is not the end symbol. [PR_reset]\n")
+	b.WriteString("  * matchDot = `.` [PR_matchDot]; a bare `position++` occurs only under a case label (a real character).\n")
 	b.WriteString("  * add(rule, begin) writes token (rule, begin, position) at index tokenIndex (append or overwrite, never a\n")
-	b.WriteString("    gap: tokenIndex ≤ len(tree) is invariant) and increments tokenIndex; restoring tokenIndex discards the\n")
+	b.WriteString("    gap: tokenIndex ≤ len(tree) is invariant) and increments tokenIndex [PR_add, PR_tokens32_Add]; restoring tokenIndex discards the\n")
 	b.WriteString("    tokens of a failed alternative; Parse trims to tokenIndex. `Peg.run` returns the tokens of kind\n")
 	b.WriteString("    PegText/Action<N> in that order; tokens of named rules are ignored by Execute() and left out.\n")
 	b.WriteString("  * memoize/memoizedResult: the memo table is a pure cache. Invariant that makes it transparent: a rule\n")
@@ -1040,7 +1048,9 @@ func genPegRules(repo, out string) (err error) {
 	b.WriteString("    and the token segment [entry tokenIndex, exit tokenIndex) a rerun would produce; numbers are distinct per\n")
 	b.WriteString("    function; the table lives as long as the buffer (both replaced in reset). memoizedResult takes the new\n")
 	b.WriteString("    position from the LAST stored token: correct because the last token of every successful run is\n")
-	b.WriteString("    add(rule<Name>, …) whose end is the exit position (so Partial is never empty). `max` (error position of\n")
+	b.WriteString("    add(rule<Name>, …) whose end is the exit position (so Partial is never empty) [PR_memo_roundtrip_true/false,\n")
+	b.WriteString("    PR_add_memo_position, PR_memo_frame_*: the replay restores segment, tokenIndex and position; other keys and the\n")
+	b.WriteString("    other closures leave the table alone]. `max` (error position of\n")
 	b.WriteString("    parseError) can differ with the cache; jsonpath.go ignores the error of Parse().\n-/\n")
 	b.WriteString("import JPV.Peg.Peg\nnamespace JPV.Gen\nopen JPV.Peg\n\n")
 	for _, r := range rules {
